@@ -755,49 +755,70 @@ func configResetGlobals() {
 	prometheus.DefaultGatherer = reg
 }
 
-// configInstantiateAll mirrors InitializeObjects + initializeFanControllers with the real
-// constructors; hwmon discovery (C17) is replaced by pointing hwmon entries at temp files.
+// The fake hwmon tree the gosensors stand-in enumerates ($VERIF_HWMON_ROOT): chip "coretemp"
+// with temp1..temp9, chip "nct6798" with fan1..fan9 / pwm1..pwm9 (same for every case).
+func configHwmonRoot(work string) string { return filepath.Join(work, "hwmon") }
+func configTempPath(work string, idx int) string {
+	return filepath.Join(configHwmonRoot(work), "hwmon0", fmt.Sprintf("temp%d_input", idx))
+}
+
+func configMakeHwmonTree(work string) {
+	root := configHwmonRoot(work)
+	d0, d1 := filepath.Join(root, "hwmon0"), filepath.Join(root, "hwmon1")
+	_ = os.MkdirAll(d0, 0o755)
+	_ = os.MkdirAll(d1, 0o755)
+	_ = os.WriteFile(filepath.Join(d0, "name"), []byte("coretemp\n"), 0o644)
+	_ = os.WriteFile(filepath.Join(d1, "name"), []byte("nct6798\n"), 0o644)
+	for n := 1; n <= 9; n++ {
+		configWriteInt(configTempPath(work, n), 45000)
+		configWriteInt(filepath.Join(d1, fmt.Sprintf("fan%d_input", n)), 1200)
+		configWriteInt(filepath.Join(d1, fmt.Sprintf("pwm%d", n)), 100)
+		configWriteInt(filepath.Join(d1, fmt.Sprintf("pwm%d_enable", n)), 1)
+	}
+	_ = os.WriteFile(filepath.Join(root, "order"), []byte("hwmon0\nhwmon1\n"), 0o644)
+	os.Setenv("VERIF_HWMON_ROOT", root)
+}
+
+// configSensorFile: the file a sensor entry reads (backend precedence of sensors.NewSensor)
+func configSensorFile(work string, i int, sc configuration.SensorConfig) string {
+	if sc.HwMon != nil {
+		return configTempPath(work, sc.HwMon.Index)
+	}
+	return filepath.Join(work, fmt.Sprintf("sensor%d", i))
+}
+
+// configInstantiateAll runs the REAL start-up glue internal.InitializeObjects()
+// (hwmon.GetChips through the gosensors stand-in on the fake tree, initializeSensors,
+// initializeCurves, initializeFans) on CurrentConfig, then (optionally) the real
+// initializeFanControllers.  A panic in the glue counts as a failed instantiation.
 func configInstantiateAll(work string, withCtrl bool) *configLiveObjs {
 	configResetGlobals()
+	configMakeHwmonTree(work)
 	cfg := &configuration.CurrentConfig
-	o := &configLiveObjs{fanMap: map[configuration.FanConfig]fans.Fan{}}
+	o := &configLiveObjs{}
 	for i, sc := range cfg.Sensors {
-		p := filepath.Join(work, fmt.Sprintf("sensor%d", i))
-		configWriteInt(p, 45000)
-		if sc.HwMon != nil {
-			sc.HwMon.TempInput = p
-		}
-		s, err := sensors.NewSensor(sc)
-		if err != nil {
-			o.instFailed = true
-			return o
-		}
-		v, _ := s.GetValue()
-		s.SetMovingAvg(v)
-		sensors.RegisterSensor(s)
+		configWriteInt(filepath.Join(work, fmt.Sprintf("sensor%d", i)), 45000)
+		_ = sc
 	}
-	if err := internal.VerifInitializeCurves(); err != nil {
+	for i := range cfg.Fans {
+		configWriteInt(filepath.Join(work, fmt.Sprintf("fan%d_pwm", i)), 100)
+		configWriteInt(filepath.Join(work, fmt.Sprintf("fan%d_rpm", i)), 1200)
+	}
+	var err error
+	if p := catch(func() { o.fanMap, err = internal.InitializeObjects() }); p != "" || err != nil {
 		o.instFailed = true
 		return o
 	}
-	for i, fc := range cfg.Fans {
-		pp := filepath.Join(work, fmt.Sprintf("fan%d_pwm", i))
-		rp := filepath.Join(work, fmt.Sprintf("fan%d_rpm", i))
-		configWriteInt(pp, 100)
-		configWriteInt(rp, 1200)
-		if fc.HwMon != nil {
-			ep := filepath.Join(work, fmt.Sprintf("fan%d_enable", i))
-			configWriteInt(ep, 1)
-			fc.HwMon.PwmPath, fc.HwMon.RpmInputPath, fc.HwMon.PwmEnablePath = pp, rp, ep
+	// fan object per configuration entry: the map is keyed by the (copied) entry, whose
+	// backend blocks are the pointers of the CurrentConfig entry
+	for _, fc := range cfg.Fans {
+		var found fans.Fan
+		for k, f := range o.fanMap {
+			if k.ID == fc.ID && k.HwMon == fc.HwMon && k.File == fc.File && k.Cmd == fc.Cmd {
+				found = f
+			}
 		}
-		f, err := fans.NewFan(fc)
-		if err != nil {
-			o.instFailed = true
-			return o
-		}
-		fans.RegisterFan(f)
-		o.fanMap[fc] = f
-		o.fanList = append(o.fanList, f)
+		o.fanList = append(o.fanList, found)
 	}
 	if withCtrl {
 		if p := catch(func() { o.ctrls, _ = internal.VerifInitializeFanControllers(nil, o.fanMap) }); p != "" {
@@ -819,7 +840,7 @@ var configSensorEnvs = []struct {
 func configSetEnv(work string, k int) {
 	e := configSensorEnvs[k]
 	for i, sc := range configuration.CurrentConfig.Sensors {
-		configWriteInt(filepath.Join(work, fmt.Sprintf("sensor%d", i)), e.raw)
+		configWriteInt(configSensorFile(work, i, sc), e.raw)
 		if s, ok := sensors.GetSensor(sc.ID); ok {
 			s.SetMovingAvg(e.avg)
 		}
@@ -1633,6 +1654,100 @@ func init() {
 			}
 			t2 := configApplyDefect(rng, &in, rng.Intn(configNDefects))
 			emit(in, "two-defects", "defect="+t1, "defect="+t2)
+		}
+		// (b2) every subset of the three backend blocks (none, each single, each pair, all three)
+		// for a sensor, a curve and a fan entry
+		breps := 2
+		if !ctx.Quick() {
+			breps = 12
+		}
+		for rep := 0; rep < breps; rep++ {
+			for kind := 0; kind < 3; kind++ {
+				for mask := 0; mask < 8; mask++ {
+					in := configGenValid(rng, rng.Range(1, 3), rng.Range(0, 2))
+					switch kind {
+					case 0:
+						s0 := &in.Sensors[rng.Intn(len(in.Sensors))]
+						s0.Hwmon, s0.File, s0.Cmd = nil, mask&2 != 0, mask&4 != 0
+						if mask&1 != 0 {
+							s0.Hwmon = configIp(rng.Range(1, 9))
+						}
+					case 1:
+						c0 := &in.Curves[rng.Intn(len(in.Curves))]
+						sid := in.Sensors[0].Id
+						c0.Linear, c0.Pid, c0.Func = nil, nil, nil
+						if mask&1 != 0 {
+							c0.Linear = &configInLinear{Sensor: sid, Min: 30, Max: 70}
+						}
+						if mask&2 != 0 {
+							c0.Pid = &configInPidC{Sensor: sid, Set: "50", K: configPidTexts[rng.Intn(2)]}
+						}
+						if mask&4 != 0 {
+							// members: some other curve (never itself)
+							other := in.Curves[0].Id
+							if other == c0.Id && len(in.Curves) > 1 {
+								other = in.Curves[1].Id
+							}
+							if other != c0.Id {
+								c0.Func = &configInFunc{Type: configFnTypes[rng.Intn(6)], Curves: []int{other}}
+							} else {
+								c0.Func = &configInFunc{Type: configFnTypes[rng.Intn(6)], Curves: []int{}}
+							}
+						}
+					default:
+						f0 := &in.Fans[rng.Intn(len(in.Fans))]
+						f0.Hwmon, f0.File, f0.Cmd = nil, nil, nil
+						if mask&1 != 0 {
+							f0.Hwmon = &configInHwFan{Rpm: rng.Range(1, 9)}
+						}
+						if mask&2 != 0 {
+							f0.File = configBp(true)
+						}
+						if mask&4 != 0 {
+							f0.Cmd = &configInCmdFan{Set: configBp(true), Get: configBp(true)}
+						}
+					}
+					emit(in, "backends", "backends="+[]string{"sensor", "curve", "fan"}[kind]+"/"+itoa(mask&1+(mask>>1)&1+(mask>>2)&1))
+				}
+			}
+		}
+		// (b3) how sensors are used: only by a linear curve, only by a pid curve, only by a pid curve
+		// nested in function curves, by nothing at all -- every combination over three sensors
+		for use := 0; use < 64; use++ {
+			if ctx.Quick() && use%2 == 1 && use > 16 {
+				continue
+			}
+			in := configIn{PermOK: true}
+			next := 1
+			var top []int
+			for si := 0; si < 3; si++ {
+				sid := si + 1 + 4*rng.Intn(2)
+				in.Sensors = append(in.Sensors, configGenSensor(rng, sid))
+				switch (use >> (2 * si)) & 3 {
+				case 0: // unused
+				case 1:
+					in.Curves = append(in.Curves, configInCurve{Id: next, Linear: &configInLinear{Sensor: sid, Min: 30, Max: 70}})
+					top = append(top, next)
+					next++
+				case 2:
+					in.Curves = append(in.Curves, configInCurve{Id: next, Pid: &configInPidC{Sensor: sid, Set: "50", K: configPidTexts[rng.Intn(2)]}})
+					top = append(top, next)
+					next++
+				default:
+					in.Curves = append(in.Curves, configInCurve{Id: next, Pid: &configInPidC{Sensor: sid, Set: "40", K: configPidTexts[rng.Intn(2)]}})
+					in.Curves = append(in.Curves, configInCurve{Id: next + 1, Func: &configInFunc{Type: configFnTypes[rng.Intn(6)], Curves: []int{next}}})
+					in.Curves = append(in.Curves, configInCurve{Id: next + 2, Func: &configInFunc{Type: configFnTypes[rng.Intn(6)], Curves: []int{next + 1, next + 1}}})
+					top = append(top, next+2)
+					next += 3
+				}
+			}
+			if len(top) == 0 {
+				continue
+			}
+			for fi, c := range top {
+				in.Fans = append(in.Fans, configGenFan(rng, fi+1, c))
+			}
+			emit(in, "sensor-use", "sensor-use="+itoa(use&3)+itoa((use>>2)&3)+itoa((use>>4)&3))
 		}
 		// (c) curve graphs with up to 8 nodes: random DAGs, a cycle of every length 1..8 embedded, dangling references
 		nGraph := ctx.Param("graphs", 30)
